@@ -101,6 +101,8 @@ structure ExGood (ex : Exchange) : Prop where
   mirrors : ex.answer.media.length = ex.offer.media.length ∧
     ex.answer.media.map (fun m => (m.kind, m.mid)) = ex.offer.media.map (fun m => (m.kind, m.mid)) ∧
     ex.answer.bundle = ex.answer.media.map (·.mid) ∧ ex.answer.bundle = ex.offer.bundle
+  /-- every media section has its own mid, however many sections there are -/
+  distinct : (ex.offer.media.map (·.mid)).Nodup ∧ (ex.answer.media.map (·.mid)).Nodup
   roles : ∀ m ∈ ex.answer.media, m.setup = .client ∨ m.setup = .server
   actpass : ∀ m ∈ ex.offer.media, m.setup = .auto
   sections : ∀ (j : Nat) (so sa : MSec), ex.offer.media[j]? = some so → ex.answer.media[j]? = some sa → so.kind.isMedia = true →
@@ -126,8 +128,19 @@ theorem Extends.trans {a b c : Pc × Pc} (h1 : Extends a b) (h2 : Extends b c) :
   · exact f1 kx h
   · exact fun hh => f2 kx h (h1.seen _ hh)
 
+/-- **Mids are pairwise distinct** in the offer and in the answer of every exchange between well-formed, paired, compatible
+connections — for any number of media sections (the 12th section gets "11", not a second "10"). -/
+theorem exchange_mids_distinct {o a : Pc} {ex : Exchange} (hok : ExchangeOk o a ex) :
+    (ex.offer.media.map (·.mid)).Nodup ∧ (ex.answer.media.map (·.mid)).Nodup := by
+  have h := hok.wfO.nodup
+  have ho : ex.offer.media.map (·.mid) = ex.offerer.keys.map (·.2) := by
+    rw [← hok.offerKeys]; simp [keysOf, List.map_map, Function.comp_def]
+  have ha : ex.answer.media.map (·.mid) = ex.offerer.keys.map (·.2) := by
+    rw [← hok.answerKeys]; simp [keysOf, List.map_map, Function.comp_def]
+  exact ⟨ho ▸ h, ha ▸ h⟩
+
 theorem exchange_good {o a : Pc} {ex : Exchange} (h : Aiortc.Model.Negotiate.negotiate o a = .ok ex) (hok : ExchangeOk o a ex) : ExGood ex :=
-  ⟨negotiate_stable h, negotiate_mirrors h, negotiate_roles_definite h, hok.offerAuto, hok.sections⟩
+  ⟨negotiate_stable h, negotiate_mirrors h, exchange_mids_distinct hok, negotiate_roles_definite h, hok.offerAuto, hok.sections⟩
 
 theorem exchange_extends {o a : Pc} {ex : Exchange} (hok : ExchangeOk o a ex) :
     (∃ rest, ex.offerer.keys = o.keys ++ rest ∧ ∀ kx ∈ rest, kx.2 ∉ o.seenMids) ∧ (∀ x, x ∈ o.seenMids → x ∈ ex.offerer.seenMids) := by
@@ -284,5 +297,40 @@ theorem run_count : ∀ (ops : List Op) (s s' : Pc × Pc) (exs : List Exchange),
     · cases h
     · cases h
     · cases h
+
+/-! ## instances with many sections
+
+`allocate_mid` on the mids of an 11-, 12-, 13-, 20-, 30- and 101-section description: the next mid is the next number
+(a "highest mid + 1" computed over the mid STRINGS would hand out "10" again after "9" and "10" exist, "100" after "99"). -/
+
+def midsUpTo (n : Nat) : List String := (List.range n).map toString
+
+example : (allocateMid (midsUpTo 10)).bind (fun r => .ok r.1) = .ok "10" := by decide +kernel
+example : (allocateMid (midsUpTo 11)).bind (fun r => .ok r.1) = .ok "11" := by decide +kernel
+example : (allocateMid (midsUpTo 12)).bind (fun r => .ok r.1) = .ok "12" := by decide +kernel
+example : (allocateMid (midsUpTo 13)).bind (fun r => .ok r.1) = .ok "13" := by decide +kernel
+example : (allocateMid (midsUpTo 20)).bind (fun r => .ok r.1) = .ok "20" := by decide +kernel
+example : (allocateMid (midsUpTo 30)).bind (fun r => .ok r.1) = .ok "30" := by decide +kernel
+example : (allocateMid (midsUpTo 101)).bind (fun r => .ok r.1) = .ok "101" := by decide +kernel
+/-- remote mids that are not numbers are skipped over, holes are filled first (the scan starts at 0) -/
+example : (allocateMid (["audio", "1", "0", "data", "3"] ++ midsUpTo 12)).bind (fun r => .ok r.1) = .ok "12" := by decide +kernel
+
+/-- a conference: audio + video with tracks, a data channel, eleven more receive-only audio transceivers — 14 sections
+at once, then a follow-up exchange offered by the OTHER side that adds one more -/
+def bigScript : List Op :=
+  [.addTrack false .audio, .addTrack false .video] ++ List.replicate 5 (.addTransceiver false .audio .recvonly false) ++
+  [.createDataChannel false] ++ List.replicate 6 (.addTransceiver false .audio .recvonly false) ++
+  [.negotiate false, .addTransceiver true .video .sendrecv true, .negotiate true]
+
+/-- the script satisfies the hypotheses of `run_ok` (for any family `P`) -/
+example (P : Kind → List Cap → Prop) : ∀ op ∈ bigScript, op.Valid P := by
+  intro op h
+  simp only [bigScript, List.replicate, List.cons_append, List.nil_append, List.mem_cons, List.not_mem_nil, or_false] at h
+  rcases h with h | h | h | h | h | h | h | h | h | h | h | h | h | h | h | h | h <;> subst h <;> simp [Op.Valid, Kind.isMedia]
+
+/-- ... and the model run: two exchanges, of 14 and 15 sections, mids "0" … "13" and "0" … "14" in order -/
+example : (match run (Pc.new .balanced, Pc.new .balanced) bigScript with
+    | .ok (_, exs) => exs.map (fun ex => (ex.offer.media.map (·.mid), ex.answer.media.map (·.mid)))
+    | _ => []) = [(midsUpTo 14, midsUpTo 14), (midsUpTo 15, midsUpTo 15)] := by decide +kernel
 
 end Aiortc.Props.C03
